@@ -25,7 +25,8 @@ Matches(c) == \A b \in 1..Len(c.blocks) : /\ ConvMatchesBlock(c.flags, c.blocks[
 
 \* fields a snapshot format cannot carry are projected as -1 and not compared
 StateClause(w, g, feclaim, mpclaim) ==
-  IF g.regs # w.regs THEN "registers"
+  IF g.machine # w.machine THEN "machine"
+  ELSE IF g.regs # w.regs THEN "registers"
   ELSE IF g.iff # w.iff \/ g.im # w.im THEN "interrupt-state"
   ELSE IF g.banks # w.banks THEN "memory"
   ELSE IF g.o7ffd # w.o7ffd THEN "paging"
